@@ -15,9 +15,9 @@ RULE = ('case = (ensemble type, dimension, bin layout / point count, nested solv
 ASSUMPTIONS = ['per-member call partition uses the serial in-process map (members run one after another)',
                'a missing _all_* attribute would be inconclusive, not an alarm']
 CLASSES = {
-    'ensembles': {'quick': 520, 'thorough': 5200},
-    'wrappers': {'quick': 300, 'thorough': 4000},
-    'generators': {'quick': 2400, 'thorough': 24000},
+    'ensembles': {'quick': 1040, 'thorough': 5200},
+    'wrappers': {'quick': 600, 'thorough': 4000},
+    'generators': {'quick': 4800, 'thorough': 24000},
 }
 MIN_EVENTS = {'quick': {'assert:ens': 1000, 'assert:gen': 600, 'members': 400}}
 CASE_TIMEOUT = 180
